@@ -122,6 +122,11 @@ def import_without_model():
     return p
 
 
+def _exc_of(case, reject):
+    """The exception type is part of a finding's signature (another exception on the same input family is another finding)."""
+    return {"exc": str(reject.get("detail", "")).strip('"\\ ')} if reject.get("clause") == "raised" else {}
+
+
 STAGES = {"api-calls": (obs_call, "TotalTrace")}
 
 CHARS = {"S": " \t,;()[] ​　", "D": "-–—‐", "L": "aZmhäß", "N": "0123456789", "P": "#.:/'@_",
@@ -155,6 +160,12 @@ def run(ctx):
               "29.2.2100", "29.02.00", "31.", "31. 31. 31.", "- - -", "to to to", "am um at", "von bis", "between and",
               # long gap-free runs of one kind of token: the model's log-odds get extreme (hundreds of nats)
               "-/" * 200, "- " * 300, "to " * 200, "and " * 150, "#x " + "–" * 1 + " -" * 350, "monday " * 40]
+    # amounts beyond any calendar arithmetic, next to a date and next to a date RANGE (float overflow in relativedelta from 309 digits on;
+    # int() refuses more than 4300 digits)
+    for big in ("9" * 12, "9" * 40, "9" * 320):
+        for f in ("5.-7.3.2020 %s tage", "%s tage 5.-7.3.2020", "5.3.2020 - 7.3.2020 für %s minuten", "tomorrow for %s weeks", "%s hours", "%s nächte 1.1. - 3.1."):
+            texts.append(f % big)
+    texts.append("1" * 4301 + " tage")      # (one text only: the pattern engine needs seconds for it)
     texts += [t for t, _ in corpus_texts()[::7 if ctx.quick else 1]]
     tss = [(1970, 1, 1, 0, 0, 0, 0), (2100, 12, 31, 23, 59, 59, 999999), (2020, 2, 29, 12, 0, 30, 5), (2019, 2, 28, 23, 59, 59, 1),
            (2018, 1, 31, 0, 0), (2018, 12, 31, 12, 0), (2000, 2, 29, 6, 6, 6), (2018, 3, 7, 12, 43), None, (2099, 1, 1, 0, 0), (1999, 12, 31, 23, 59, 59)]
@@ -200,11 +211,19 @@ def run(ctx):
                 for latent in ((1, 0) if h1 == h2 or not ctx.quick else (rnd.choice((1, 0)),)):
                     cases.append({"text": f % (h1, h2), "ts": (2018, 3, 7, 12, 43), "latent": latent, "depth": 10, "rel": 1.0, "scorer": "shipped",
                                   "seed": 0, "entries": ["single", "gen"], "label": "clock-range", "form": "clock-range"})
+    # digits that the pattern engine (regex module, newer Unicode tables) accepts as \d but int() of this interpreter does not know
+    import regex as _regex
+    newd = [chr(cp) for cp in range(0x10000, 0x20000) if _regex.match(r"\d", chr(cp)) and not chr(cp).isdigit()][:: 9 if ctx.quick else 1]
+    for d in newd:
+        for f in ("%s uhr", "um %s", "1.1.%s%s", "%s:30", "3 %s tage", "%s. mai"):
+            cases.append({"text": f.replace("%s", d), "ts": (2018, 3, 7, 12, 43), "latent": 1, "depth": 10, "rel": 1.0, "scorer": "shipped", "seed": 0,
+                          "entries": ["single"], "label": "digit-unknown-to-int", "form": "digit-unknown-to-int"})
+    ctx.stage_counts["digits-unknown-to-int"] = {"code_points": len(newd)}
     # smoke subset under a tiny REAL timeout (the expiry point is not controlled here; C13 enumerates them)
     for t in texts[::40]:
         cases.append({"text": t, "ts": (2018, 3, 7, 12, 43), "latent": 1, "depth": 10, "rel": 1.0, "scorer": "shipped", "timeout": 0.0001,
                       "entries": ["single", "gen"], "label": "real-timeout", "form": "timeout"})
-    core.run_stage(ctx, "api-calls", cases, obs_call, "TotalTrace", sig_keys=("form",),
+    core.run_stage(ctx, "api-calls", cases, obs_call, "TotalTrace", sig_keys=("form",), diagnose=_exc_of,
                    nontrivial=lambda c: (c["text"], str(c["ts"]), c["latent"], c["depth"], c["rel"], c["scorer"]))
     # configuration fault: the shipped model file is absent when the package is imported
     p = import_without_model()
